@@ -286,6 +286,8 @@ where
             };
         }
 
+        #[cfg(pearl_verif)]
+        crate::verif::buggify_yield("worker.between_locks").await;
         let mut write = self.inner.safe().write().await;
         let mut replace = false;
         {
